@@ -420,6 +420,33 @@ func checkC14(c *Ctx, r *Report) {
 		lockLeakRule(c, r, li, "R14.6", name)
 	}
 	r.floor("R14.6", 4)
+	// R14.7: the errors Do hands out include pointers to package-level values (the not-connected and
+	// too-long sentinels) that every goroutine shares: nothing may write to a ClientError after its
+	// construction (a caching Error() would race outside the client's mutex)
+	{
+		if ce := c.pkg("").Type("ClientError"); ce != nil {
+			tn := ce.Type().(*types.Named)
+			st, _ := tn.Underlying().(*types.Struct)
+			all := map[int]bool{}
+			for i := 0; st != nil && i < st.NumFields(); i++ {
+				all[i] = true
+			}
+			nbad := 0
+			for _, fs := range storesToFields(c, "", tn, all) {
+				fa := fs.instr.Addr.(*ssa.FieldAddr)
+				if al, ok := fa.X.(*ssa.Alloc); ok && al.Parent() == fs.fn {
+					continue // field of a value being constructed
+				}
+				nbad++
+				r.fail("R14.7", fnID(fs.fn), "a ClientError is modified after construction; the shared sentinel errors returned by Do would be written by several goroutines", fs.pos, "", "error-value-mutated")
+			}
+			r.instance("R14.7", 1)
+			if nbad == 0 {
+				r.ok("R14.7", "modbus.ClientError", "no function stores to a field of an existing ClientError (the package-level sentinel errors stay immutable)", "-", true)
+			}
+		}
+		r.floor("R14.7", 1)
+	}
 	// R14.5: what a caller receives must not alias memory the client reuses for the next call:
 	// do() returns a fresh copy of a function-local receive buffer
 	clientLoopItems(c, r, "R7.2", "R14.5", "the frame handed on is a copy of received[0:total]")
